@@ -6,6 +6,7 @@ EXTENDS GeodLine, TLC, Json
 
 CONSTANTS CapsStride, MaskStride, NChunks
 VARIABLES st      \* <<"root">> | <<"chunk", c>> | <<"obj", ctor, capsNum, setop>> | <<"pos", ctor, caps, setop, arcmode, outmask>>
+                  \* | <<"gi", class, kind, outmask>> | <<"ri", class, exact, outmask>> | <<"ov", family, n, kind, caps>>
 
 Ctors == {"line", "direct", "arcdirect", "inverse"}
 \* the third point may be (re)defined after any constructor, also twice: only the last call counts
@@ -16,6 +17,18 @@ AllMasks == 0..511
 CapsSample == {m \in AllMasks : m % CapsStride = 0 \/ m \in {0, 1, 5, 16, 24, 261, 277, 511}}
 MaskSample == {m \in AllMasks : m % MaskStride = 0 \/ m \in {0, 8, 15, 127, 255, 256, 383, 511}}
 
+\* Solver-level calls on one fixed input per END-POINT CLASS (the driver holds the coordinates of each class): the inverse
+\* problem has several exits (coincident / short / meridional / equatorial / nearly antipodal / general, end points swapped or
+\* not, prolate or oblate), each of which handles the mask on its own.  kind: 0 series, 1 GeodesicExact, 2 Geodesic(exact=true).
+GiClasses == {"generic", "generic-swapped", "coincident", "short", "short-swapped", "merid", "merid-long", "merid-pole",
+              "equatorial", "equatorial-far", "equatorial-prolate", "antipodal", "antipodal-exact", "pole-pole",
+              "prolate-merid", "prolate-antipodal", "sphere"}
+RiClasses == {"generic", "north", "south", "poles", "meridian", "parallel", "coincident", "antimeridian", "pole-coincident"}
+RhumbMasks == {m \in AllMasks : Set(m) \subseteq RhumbBits}
+\* inline overloads: every (family, arity); the line families on lines with sampled capability sets
+OvKinds(fam) == IF fam \in OvRhumbFamilies THEN {0, 1} ELSE {0, 1, 2}
+OvCaps(fam) == IF fam \in OvLineFamilies THEN CapsSample \cup {8, 24, 58, 455} ELSE {511}
+
 Init == st = <<"root">>
 Next ==
   \/ st = <<"root">> /\ \E c \in 0..(NChunks - 1) : st' = <<"chunk", c>>
@@ -23,6 +36,12 @@ Next ==
         \E so \in SetOps(ctor) : st' = <<"obj", ctor, c, so>>
   \/ st[1] = "obj" /\ \E am \in {TRUE, FALSE}, om \in (IF ~Basic(st[2], st[4]) THEN {0, 15, 511} ELSE IF st[3] \in CapsSample THEN AllMasks ELSE MaskSample) :
         st' = <<"pos", st[2], st[3], st[4], am, om>>
+  \/ st[1] = "chunk" /\ \E cls \in GiClasses, kind \in {0, 1, 2}, om \in {m \in AllMasks : m % NChunks = st[2]} :
+        st' = <<"gi", cls, kind, om>>
+  \/ st[1] = "chunk" /\ \E cls \in RiClasses, ex \in {0, 1}, om \in {m \in RhumbMasks : m % NChunks = st[2]} :
+        st' = <<"ri", cls, ex, om>>
+  \/ st[1] = "chunk" /\ \E fam \in OvFamilies : \E n \in OvArities(fam), kind \in OvKinds(fam), c \in {m \in OvCaps(fam) : m % NChunks = st[2]} :
+        st' = <<"ov", fam, n, kind, c>>
 
 (* invariants of the model *)
 PosInv ==
@@ -43,5 +62,23 @@ ThirdInv ==
     /\ (Set(st[3]) = Bits => (st[2] = "line" /\ st[4] = "none") \/ (t[1] /\ t[2]))
 NumInv == st[1] = "obj" => Num(Set(st[3])) = st[3]
 
-Emit == st[1] = "pos" => PrintT(ToJson(st))
+SolverInv ==
+  /\ st[1] = "gi" => GenInverseWritten(Set(st[4])) \subseteq Set(st[4])
+  /\ st[1] = "ri" => RhumbInverseWritten(Set(st[4])) \subseteq Set(st[4]) \cap RhumbBits
+\* the overload table is consistent with the signatures: the number of output arguments is the arity; an overload never has an
+\* output the general routine lacks; the largest overload of a family returns everything the general routine can (except the
+\* distance when the distance is the input); a line never writes more than the solver overload of the same arity and never
+\* more than it is capable of
+OvInv ==
+  st[1] = "ov" =>
+    LET fam == st[2]  n == st[3]  outs == OverloadOut(fam, n)  w == OverloadWritten(fam, n, Set(st[5])) IN
+    /\ n \in OvArities(fam) /\ ArgCount(fam, outs) = n
+    /\ outs \subseteq OvGeneral(fam)
+    /\ (\A m \in OvArities(fam) : m <= n) => outs = OvGeneral(fam) \ (IF fam \in {"Direct", "Position"} THEN {DIST} ELSE {})
+    /\ \A m \in OvArities(fam) : m # n => OverloadOut(fam, m) # outs
+    /\ w[2] \subseteq outs /\ (~w[1] => w[2] = {})
+    /\ (fam \in OvLineFamilies => w[2] \subseteq CapsOf("line", Set(st[5])) /\ (Set(st[5]) = Bits => w = <<TRUE, outs>>))
+    /\ (fam = "Position" => OverloadOut("Direct", n) = outs) /\ (fam = "ArcPosition" => OverloadOut("ArcDirect", n) = outs)
+
+Emit == st[1] \in {"pos", "gi", "ri", "ov"} => PrintT(ToJson(st))
 =============================================================================
